@@ -496,8 +496,25 @@ def _gap(gaps, i, n_tokens):
     return gaps[(i + n_tokens) % len(gaps)]
 
 
+def layout_commented_copy(tokens):
+    """One or two tokens per line; after every line a multi-line comment that spans whole lines and
+    contains a character-for-character copy of that (live) line:   <line> / '/*' / <line> / '*/'.
+    Commented text never denotes anything, so the text denotes the same data."""
+    out = []
+    i = 0
+    width = 1
+    while i < len(tokens):
+        line = " ".join(tokens[i:i + width])
+        out += [line, "/*", line, "*/"]
+        i += width
+        width = 3 - width               # lines of one and of two tokens alternate
+    return "\n".join(out)
+
+
 def layout(tokens, name):
     """Join tokens with the gaps of a layout (also before the first and after the last token)."""
+    if name == "commented-copy":
+        return layout_commented_copy(tokens)
     gaps = LAYOUTS[name]
     out = []
     nt = len(tokens)
@@ -516,6 +533,8 @@ def layout(tokens, name):
 
 def layout_features(n_tokens, name):
     """Which kinds of gap a text of n tokens in this layout contains."""
+    if name == "commented-copy":
+        return {"gap:multi-line-comment-with-copy-of-an-earlier-live-line"} if n_tokens else set()
     gaps = LAYOUTS[name]
     return {EXOTIC_GAP_FEATURES[g] for g in (_gap(gaps, i, n_tokens) for i in range(n_tokens + 1))
             if g in EXOTIC_GAP_FEATURES}
@@ -692,6 +711,7 @@ def selftest():
     assert render(["M", ["a", "b"]], L, MOpt(True, True, None, False, val_same=True)).tokens == ["{", "a", ":", "b", "}"]
     assert "\x0c" in layout(["[", "a", "]"], "exotic") and layout_features(3, "exotic")
     assert len(list(simple_values(("a", "1"), 3))) == 4 + 8 + 2 * (8 + 16)
+    assert layout(["[", "a", ",", "b", "]"], "commented-copy") == "[\n/*\n[\n*/\na ,\n/*\na ,\n*/\nb\n/*\nb\n*/\n]\n/*\n]\n*/"
     # statements (seeded/C05-w3a demo): "% name ." -> named statement without elements
     assert render(["N", "a"], L, M).tokens == ["%", "a", "."] and expected(["N", "a"]) == ("named", "a", ())
     assert render(["P", "a", ["L", "b"]], L, M).tokens == ["%", "a", "[", "b", "]", ";"]
